@@ -26,6 +26,8 @@ CLAIMED = {
          "Not decided: planner metadata (HasAuthorizationRule), entity/batch prepare variants, response-side nulling (pending), seeding completeness (pending)."),
  "C07": ("Guards proved on Loader.mergeResult for every path: merges/Set/taint happen only when the fetch did not fail (transport error, rejected, skipped, empty body); a transport error is reported; a fetch with an errored dependency is not prepared; loadPhase is reached only after a successful prepare.",
          "Not decided: liveness (returns promptly), byte-identity of the unaffected part, the HTTP client; error renderers are assumed effect summaries."),
+ "C11": ("Deductive proof on both single flights (inbound requests and subgraph requests): eligibility (only queries, disable flags respected), the de-duplication key as a term over all its components (request id, variables hash, headers hash; data source id, input, headers hash) checked where the key reaches sync.Map.LoadOrStore, follower buffers (inbound: a private copy; subgraph: exactly the leader's published bytes or the leader's error), a follower sends nothing, and the close-once discipline as a linear ghost permission: created at the non-shared LoadOrStore, required and consumed at close(), never held by a follower, consumed on every leader path of ArenaResolveGraphQLResponse and loadByContext (defect F7 — double close after a late follower — found by the follower postcondition of GetOrCreate and fixed).",
+         "Not decided: liveness/no goroutine blocked forever as a history property, equality with the un-deduplicated bytes (C01-level), lifetime of the shared buffer, panics inside the leader's work (a panicking leader never finishes), hash collisions. Interleavings are not explored."),
  "C08": ("Lock discipline and phase order proved on the loader: preparePhase and mergePhase hold the data lock for all accesses to the shared tree (mutex typestate obligations at every call), the lock is released on every path, loadPhase and the cache flush run unlocked, merge happens after load in program order; Loader.dataBuffer is a stable field (package-wide SSA scan).",
          "Not decided: schedule tree shape (validateSchedule contracts pending), independence from completion order."),
 }
